@@ -32,6 +32,15 @@ FactorShapeOK(e) ==
          /\ F.finite \in BOOLEAN
          /\ \A c \in 1..Len(F.cols) : Len(F.cols[c].diffs) = F.rows - 1
 
+\* measurements of the caller's start (same record as a factor); <<>> for built-in starts
+StartShapeOK(e) ==
+    IF BuiltinInit(e.run) THEN TRUE
+    ELSE /\ Len(e.start) = e.n
+         /\ \A m \in 1..e.n :
+              LET F == e.start[m] IN
+              /\ F.rows = e.run.shape[m] /\ Len(F.cols) = e.run.rank /\ F.finite \in BOOLEAN
+              /\ \A c \in 1..Len(F.cols) : Len(F.cols[c].diffs) = F.rows - 1
+
 MapVerdict(e) ==
     LET n == e.n
         items == e.items IN
@@ -62,12 +71,19 @@ RunVerdict(e) ==
          \* the property speaks about returned factors; a numerical break-down returns nothing
          (IF e.exc \in NumericFailure THEN <<"ok", -1>> ELSE <<"DecompRaised", -1>>)
     ELSE IF ~FactorShapeOK(e) THEN <<"Shape", -1>>
+    ELSE IF ~StartShapeOK(e) THEN <<"StartShape", -1>>
     ELSE LET A    == Assign(n, items)
              obl  == ObligedModes(n, items, e.run)
              nomeas == {m \in obl : ~MeasOK(A[m].kind, e.factors[m + 1])}
-             bad  == {m \in obl \ nomeas : ~Feasible(A[m].kind, A[m].par, e.factors[m + 1])} IN
+             bad  == {m \in obl \ nomeas : ~Feasible(A[m].kind, A[m].par, e.factors[m + 1])}
+             \* returned as supplied: a supplied factor that was feasible (judged here, on e.start) stays feasible
+             kept == {m \in KeptModes(n, items, e.run) : /\ MeasOK(A[m].kind, e.start[m + 1])
+                                                        /\ Feasible(A[m].kind, A[m].par, e.start[m + 1])}
+             lost == {m \in kept : ~(/\ MeasOK(A[m].kind, e.factors[m + 1])
+                                     /\ Feasible(A[m].kind, A[m].par, e.factors[m + 1]))} IN
          IF nomeas # {} /\ ~UnderflowRegime(e.run) THEN <<"Finite", LeastOf(nomeas)>>
          ELSE IF bad # {} THEN <<ClauseOf(A[LeastOf(bad)].kind), LeastOf(bad)>>
+         ELSE IF lost # {} THEN <<"SuppliedFeasibleLost", LeastOf(lost)>>
          ELSE <<"ok", -1>>
 
 \* one call of the real proximal_operator with the user's specification for mode e.run.mode
